@@ -205,7 +205,16 @@ let fam_c04 tier r =
 let fam_c05 tier r =
   let post = [ sleep 30; wait 0; close 0; destroy () ] in
   let n = if tier = "quick" then 500 else 20000 in
+  let closed_file = List.concat_map (fun closed ->
+      List.map (fun opts ->
+          let files = List.map (fun (k, v) -> if List.mem (int_of_z k) closed then (k, None) else (k, v)) user_files in
+          { sc_world = world_with ~fds:user_fds ~files [ [ a_sleep 10; a_exit 0 ] ];
+            sc_ops = [ new_ (); start ~opts (c 0); pid (); wait 100; destroy () ] })
+        [ { default_options with o_parent = true }; { default_options with o_in = rd 2 }; default_options;
+          { default_options with o_out = rd 2; o_err = rd 4 }; { default_options with o_err = rd ~f:4 6 }; { default_options with o_out = rd ~f:5 6 } ])
+      [ [ 1 ]; [ 2 ]; [ 3 ]; [ 1; 2; 3 ]; [ 4 ] ] in
   [ { name = "C05/single-faults"; exhaustive = true; scs = fault_family tier post };
+    { name = "C05/closed-FILE-streams"; exhaustive = true; scs = closed_file };
     { name = "C05/fault-pairs"; exhaustive = false; scs = fault_pairs r (if tier = "quick" then 200 else 10000) post };
     { name = "C05/random-histories"; exhaustive = false;
       scs = List.init n (fun k ->
